@@ -1503,6 +1503,9 @@ static int run_generated(struct vf_rng *r)
 /*   to   PAC r,i TOk 'text'        (e)(1)(ii): k columns further right, nothing erased                */
 /*   edm  'text' EDM                (f)(1)(viii)... displayed memory erased                            */
 /*   eoc  RCL ENM PAC r,i 'text' EOC   pop-on: text appears with EOC, not before                       */
+/*   ru   RUa PAC r,0 'row' (CR 'row')x(a-1) RUb, b < a   (f)(1)(iv): "decreasing the number of roll-up   */
+/*        rows instantly changes the size of the active display window ... A row which is turned off   */
+/*        should also be erased from memory": the top a-b rows vanish at once, the lower b rows stay     */
 /* Cells outside the addressed row must be transparent (the suffix erased the displayed memory).      */
 
 static int loc_fail(const char *what, int p, int row, const struct dcell pgc[M_ROWS][M_COLS], const char *expect, int f)
@@ -1519,9 +1522,9 @@ static int run_cc608_local(struct vf_rng *r)
 {
 	struct gen g[2];
 	static const char alnum[] = "ABCDEFGHIJKLMNOPQRSTUVWXYZabcdefghijklmnopqrstuvwxyz0123456789";
-	static const char *const kinds[] = { "put", "der", "bs", "to", "edm", "eoc" };
-	char exp[M_COLS + 1], text[40];
-	int f, ch2, p, row, ind, ul, n, k, kind, i, c, plen, nbs = 0, tok = 0, der_col = 0;
+	static const char *const kinds[] = { "put", "der", "bs", "to", "edm", "eoc", "ru" };
+	char exp[M_COLS + 1], exp_up[3][M_COLS + 1], text[40];
+	int f, ch2, p, row, ind, ul, n, k, kind, i, c, plen, nbs = 0, tok = 0, der_col = 0, ru_a = 0, ru_b = 0, n_up = 0;
 	struct snap *s;
 
 	sut_cc608 = m_sut_cc608 = 1;
@@ -1535,7 +1538,8 @@ static int run_cc608_local(struct vf_rng *r)
 	/* the suffix */
 	f = (int)vf_below(r, 2); ch2 = (int)vf_below(r, 2); p = f * 2 + ch2;
 	row = vf_range(r, 1, 15); ind = (int)vf_below(r, 8) * 4; ul = (int)vf_below(r, 2);
-	kind = (int)vf_below(r, 6);
+	kind = (int)vf_below(r, 7);
+	if (kind == 6 && row < 4) row = vf_range(r, 4, 15);   /* a base row with room for four rows */
 	q_flush_pend(0); q_flush_pend(1);
 	while (qn[f] < qn[1 - f]) q_push(f, 0, 0, 0);       /* the suffix comes after everything on the other field, too */
 	q_null(f, 1);
@@ -1549,6 +1553,25 @@ static int run_cc608_local(struct vf_rng *r)
 	else CTL(e608_misc(ch2, f, E608_RDC));
 	CTL(e608_misc(ch2, f, E608_EDM));
 	switch (kind) {
+	case 6: { /* ru: depth a, a rows of text, then the smaller depth b */
+		int j, m;
+		ru_a = vf_range(r, 3, 4); ru_b = vf_range(r, 2, ru_a - 1);
+		ind = 0; ul = 0;
+		CTL(e608_misc(ch2, f, ru_a == 4 ? E608_RU4 : E608_RU3));
+		CTL(e608_pac(ch2, row, 0, 0, 0));
+		for (j = 0; j < ru_a; j++) {
+			char line[12];
+			m = vf_range(r, 2, 9);
+			for (i = 0; i < m; i++) line[i] = alnum[vf_below(r, sizeof alnum - 1)];
+			if (j) CTL(e608_misc(ch2, f, E608_CR));
+			for (i = 0; i < m; i++) q_char(f, line[i]);
+			/* row j of the window ends up ru_a-1-j rows above the base row; the lower ru_b rows survive */
+			if (ru_a - 1 - j == 0) { for (i = 0; i < m; i++) exp[1 + i] = line[i]; memcpy(text, line, (size_t)m); text[m] = 0; n = m; }
+			else if (ru_a - 1 - j < ru_b) { char *e = exp_up[ru_a - 1 - j - 1]; memset(e, ' ', M_COLS); e[M_COLS] = 0; for (i = 0; i < m; i++) e[1 + i] = line[i]; n_up = ru_a - 1 - j > n_up ? ru_a - 1 - j : n_up; }
+		}
+		q_check(f);                                     /* all a rows on the screen */
+		CTL(e608_misc(ch2, f, ru_b == 2 ? E608_RU2 : E608_RU3));
+		break; }
 	case 0: /* put */
 		CTL(e608_pac(ch2, row, ind, 0, ul));
 		for (i = 0; i < n; i++) q_char(f, text[i]);
@@ -1620,16 +1643,19 @@ static int run_cc608_local(struct vf_rng *r)
 		for (rr = 0; rr < M_ROWS; rr++) {
 			for (c = 0; c < M_COLS; c++) {
 				const struct dcell *d = &s->pg[p][rr][c];
-				int want = rr == row - 1 ? exp[c] : ' ';
+				int up = row - 1 - rr;      /* rows above the addressed row (kind ru: the surviving window rows) */
+				int want = rr == row - 1 ? exp[c] : (kind == 6 && up >= 1 && up <= n_up) ? exp_up[up - 1][c] : ' ';
+				const char *exprow = rr == row - 1 ? exp : (kind == 6 && up >= 1 && up <= n_up) ? exp_up[up - 1] : "                                  ";
 				if (want != ' ') {
-					if (d->op == VBI_TRANSPARENT_SPACE || d->uc != (unsigned)want) return loc_fail(kind == 2 ? "backspace" : kind == 3 ? "tab-offset" : "text-at-cursor", p, rr, s->pg[p], exp, f);
+					if (d->op == VBI_TRANSPARENT_SPACE || d->uc != (unsigned)want) return loc_fail(kind == 2 ? "backspace" : kind == 3 ? "tab-offset" : kind == 6 ? "roll-up-shrink-lost-row" : "text-at-cursor", p, rr, s->pg[p], exprow, f);
 					if (d->fg != VBI_WHITE || !!(d->fl & DF_UL) != ul || (d->fl & (DF_IT | DF_FL | DF_OTHER)))
 						return loc_fail("attributes-of-indent-PAC", p, rr, s->pg[p], exp, f);
 					continue;
 				}
 				if (d->op == VBI_TRANSPARENT_SPACE) { if (d->uc != 0x20) return loc_fail("transparent-cell-not-blank", p, rr, s->pg[p], exp, f); continue; }
 				/* (d)(1): a solid space may stand before the first and after the last character of a row */
-				if (rr == row - 1 && d->uc == 0x20 && ((c > 0 && exp[c - 1] != ' ') || (c < M_COLS - 1 && exp[c + 1] != ' '))) continue;
+				if (exprow[0] && d->uc == 0x20 && ((c > 0 && exprow[c - 1] != ' ') || (c < M_COLS - 1 && exprow[c + 1] != ' '))) continue;
+				if (kind == 6 && up > n_up && up < ru_a) return loc_fail("roll-up-shrink-row-not-erased", p, rr, s->pg[p], exprow, f);
 				if (rr != row - 1) return loc_fail("other-row-not-erased", p, rr, s->pg[p], "                                  ", f);
 				return loc_fail(kind == 1 ? (c >= der_col ? "DER-left-cell" : "DER-changed-left-part") : kind == 4 ? "EDM-left-cell" : kind == 2 ? "backspace" : "spurious-cell", p, rr, s->pg[p], exp, f);
 			}
